@@ -57,6 +57,12 @@ CHECKS = {
     design="5/C18",
     note="Trusted: Lean kernel; guard model = guard code compared per injected case; the injected specifications are the harness's reading of the rules; base specifications are sampled.",
     technique="Lean 4 proofs that rule instances imply the code-level guards + exhaustive-position rule injection against the real pipeline"),
+ "C01": dict(
+    category="proof",
+    text="Lean theorems (Props/C01) over a point-list semantics of the emitted loop nest (union over terms of the intersection over the operands whose next rank is the loop rank; range loop for output-only ranks; update adds scalars x operand leaves, for take the selected leaf): run_eq_spec_times - for every number of loops, every concordant schedule (= every loop order and rank order), every extent and EVERY input content, the value accumulated at every output point equals the Einsum's mathematical value, for sums of products of any shape (scalars, rank-0 operands, reductions, output-only ranks, single-operand take); run_eq_spec_single - the same for a single take() term with any number of non-rank-0 operands (inputs without stored zeros); compile_wf/model_times - the nest the model compiler builds from ANY well-formed Einsum, loop order and rank orders satisfies the hypotheses. Outside this class the statement is false of the emitted nest (two Lean counterexamples = the two known findings). Tie per generated specification and sampled input: the model nest's result = what the real emitted program computes on the minifiber stand-in; the model's loop skeleton = the real tree's loops; Nest.spec = the harness's dense oracle; real = oracle.",
+    design="5/C01",
+    note="Trusted: Lean kernel; the reading of the fibertree API (Nest.run is the meaning of `for c, (z, (a, b)) in z << (a & b)` etc.), cross-checked against the minifiber stand-in; model compiler = real compiler is sampled (skeleton + results on 2-3 inputs per specification), not proved; header/footer statements (swizzles, output creation) are validated by execution only. Known findings: take() with >=2 operands inside a sum; rank-0 operand of take().",
+    technique="Lean 4 proof by induction over the loop nest (co-iteration = dense sum) + model-compiler correspondence by skeleton comparison and differential execution"),
 }
 
 NOT_YET = {}
